@@ -318,6 +318,7 @@ class Fn:
 _FN_HEAD = re.compile(r'^fn (.*) \{$')
 _PROM_HEAD = re.compile(r'^const (.*)::promoted\[(\d+)\]: (.*) = \{$')
 _STATIC_HEAD = re.compile(r'^static (?:mut )?([\w:]+): (.*) = \{$')
+_CONST_HEAD = re.compile(r'^const ([\w:]+): (.*) = \{$')
 _LET = re.compile(r'^\s*let (?:mut )?(_\d+): (.*);$')
 _BB = re.compile(r'^    (bb\d+)(?: \(cleanup\))?: \{$')
 _IMPL_AT = re.compile(r'<impl at (src/[\w/]+\.rs):(\d+):(\d+): (\d+):(\d+)>')
@@ -331,6 +332,7 @@ class Mir:
         self.by_impl = {}        # (trait|None, self head, method) -> [Fn]
         self.by_name = {}        # last path segment -> [Fn]   (free functions, trait default methods, ctors)
         self.statics = {}
+        self.consts = {}                        # const items with a body: last path segment -> [Fn]
         self._parse(text)
 
     def _parse(self, text):
@@ -338,11 +340,12 @@ class Mir:
         i, n = 0, len(lines); last_fn = None
         while i < n:
             l = lines[i]
-            m = _FN_HEAD.match(l); pm = None; sm = None
+            m = _FN_HEAD.match(l); pm = None; sm = None; cm = None
             if not m:
                 pm = _PROM_HEAD.match(l)
                 if not pm: sm = _STATIC_HEAD.match(l)
-            if not (m or pm or sm): i += 1; continue
+                if not pm and not sm: cm = _CONST_HEAD.match(l)
+            if not (m or pm or sm or cm): i += 1; continue
             j = i + 1
             while lines[j] != '}': j += 1
             body = lines[i + 1:j]
@@ -360,6 +363,8 @@ class Mir:
             elif pm:
                 f.name = f'{last_fn.name}::promoted[{pm.group(2)}]' if last_fn else pm.group(1)
                 f.argtypes = []; f.ret = canon(pm.group(3))
+            elif cm:
+                f.name = 'const ' + cm.group(1); f.argtypes = []; f.ret = canon(cm.group(2))
             else:
                 f.name = 'static ' + sm.group(1); f.argtypes = []; f.ret = canon(sm.group(2))
             f.nargs = len(f.argtypes)
@@ -389,6 +394,7 @@ class Mir:
             self.fns[f.name] = f
             if pm and last_fn is not None: last_fn.promoted[int(pm.group(2))] = f
             if sm: self.statics[sm.group(1).split('::')[-1]] = f
+            if cm: self.consts.setdefault(cm.group(1).split('::')[-1], []).append(f)
             if m:
                 last_fn = f
                 self._index(f)
